@@ -56,7 +56,7 @@ def gen_history(rng, model, g):
             ops.append({"op": "FK", "rel_for_lengths": rel.tolist(), "mode": int(rng.integers(2)), "reverse": False, "protect": False})
             ops.append({"op": "getters"})
     for _ in range(L):
-        k = gen.pick(rng, ["IK", "IK", "IK_out", "IK_protect", "FK", "FK", "FK_out", "FK_out", "FK_out", "FK_reverse", "move", "spin", "validate", "validate_do",
+        k = gen.pick(rng, ["IK", "IK", "IK_out", "IK_protect", "IK_tilt", "FK", "FK", "FK_out", "FK_out", "FK_out", "FK_reverse", "move", "spin", "validate", "validate_do",
                            "invjac", "static", "carry", "randomPos", "randomPos", "getters"])
         if k in ("IK", "IK_protect"):
             ops.append({"op": "IK", "rel": splib.gen_rel_pose(rng, h).tolist(), "protect": k == "IK_protect"})
@@ -65,6 +65,14 @@ def gen_history(rng, model, g):
             if rng.random() < 0.2:
                 rel[2] = -abs(rel[2]) * rng.uniform(0.2, 1.0)          # below the base
             ops.append({"op": "IK", "rel": rel.tolist(), "protect": bool(rng.random() < 0.2)})
+        elif k == "IK_tilt":
+            # compound tilt (axis off the coordinate axes) whose total angle straddles the default plate-rotation limit (60 degrees): the
+            # three diagonal entries of the relative rotation and the three rotation-vector components disagree about such a pose
+            ax = np.append(gen.rand_unit(rng, 2), rng.uniform(-0.3, 0.3))
+            rv = ax / np.linalg.norm(ax) * rng.uniform(0.8, 1.3)
+            lat = gen.rand_unit(rng, 2) * rng.uniform(0, 0.1) * h
+            ops.append({"op": "IK", "rel": [float(lat[0]), float(lat[1]), float(h * rng.uniform(0.95, 1.25)), float(rv[0]), float(rv[1]), float(rv[2])],
+                        "protect": bool(rng.random() < 0.2)})
         elif k in ("FK", "FK_reverse"):
             ops.append({"op": "FK", "rel_for_lengths": splib.gen_rel_pose(rng, h).tolist(), "mode": int(rng.integers(2)), "reverse": k == "FK_reverse",
                         "protect": bool(rng.random() < 0.2)})
